@@ -81,7 +81,7 @@ CHECKS = {
         assumptions=[],
     ),
     "C20": dict(
-        packs=["c20"], level="other",
+        packs=["c20", "c03"], level="other",
         explanation="R20.1 the 12 ColorMapping tables are extracted completely from the MIR switch tables (constant patterns are compiled to switches on evaluated values) and checked to be mutually inverse, injective, '?' only outside the table and to name the documented colours; gray radix/scale pairing; ' ' <-> None. "
                     "R20.2 complete decision table of draw_pixel over (inside, allow_oob, allow_overdraw, occupied) compared with the specification on all 16 valuations. R20.3 one cell index formula for get/set, affected_area min/max pairing, diff table, element-wise eq. R20.5 who-may-write: the cell array is stored only by set_pixel/set_pixel_unchecked and the DrawTarget methods change cells only through draw_pixel (which applies the checks).",
         claim="Decides the character tables and the panic/store decision table of draw_pixel exhaustively, plus structural pairing of the area/diff/index code; histories as such follow from the single store site but are not enumerated.",
@@ -263,6 +263,7 @@ DEPENDS = {
     "C10": "Also runs O0 of C12 (raw values are masked by construction: set_pixel ORs them in unmasked), the ImageRaw rules of C09 (as_image() / pixel() read through ImageRaw) and the raw load / iteration rules of C11, and the trait-default rules of C03 (Framebuffer relies on the default fill methods).",
     "C11": "Also runs O0 of C12 (raw values are masked by construction).",
     "C12": "Also runs the raw load / store rules of C11 and the framebuffer rules of C10 (into_storage / to_bytes and the raw types are what they store).",
+    "C20": "Also runs the adapter / trait-default rules of C03 (MockDisplay inherits the default fill_contiguous / fill_solid / clear: every pixel of a fill must reach draw_iter for the out-of-bounds and overdraw checks to see it).",
     "C14": "Also runs the adapter / trait-default rules of C03 (glyphs reach the target through fill_contiguous / fill_solid of the font draw targets and the defaults) and the image wiring R01.5 (every glyph is drawn as an Image of a sub image).",
 }
 for _k, _v in DEPENDS.items():
